@@ -91,6 +91,11 @@ func (x *Exec) funcValueKey(v ssa.Value) string {
 		fld := st.Underlying().(*types.Struct).Field(v.Field)
 		return "funcfield:" + shortTypeName(st) + "." + fld.Name()
 	case *ssa.Parameter:
+		if x.inlined && x.parent != nil && x.paramArgs != nil {
+			if a, ok := x.paramArgs[v]; ok {
+				return x.parent.funcValueKey(a) // the argument's provenance in the caller
+			}
+		}
 		return "funcparam:" + x.name + "." + v.Name()
 	case *ssa.FreeVar:
 		return "funcparam:" + x.name + "." + v.Name()
@@ -112,6 +117,9 @@ func (x *Exec) funcValueKey(v ssa.Value) string {
 
 func (x *Exec) calleeAssigns(c *ssa.CallCommon) []assignItem {
 	fc, _, callee := x.calleeContract(c)
+	if fc == nil && !c.IsInvoke() && x.inlinable(callee) {
+		return x.inlineAssigns(callee)
+	}
 	if fc == nil {
 		if _, ok := c.Value.(*ssa.Builtin); ok {
 			return nil
@@ -239,7 +247,7 @@ func (x *Exec) call(in ssa.Instruction, c *ssa.CallCommon, res ssa.Value) {
 	x.typeArgFn = callee
 	defer func() { x.typeArgFn = nil }()
 	if fc == nil && !c.IsInvoke() && x.inlinable(callee) && len(callee.Params) == len(args) {
-		results := x.inlineCall(callee, args)
+		results := x.inlineCall(callee, args, c.Args)
 		tupI := resT.(*types.Tuple)
 		if res != nil && tupI.Len() > 0 {
 			if tupI.Len() == 1 {
